@@ -67,12 +67,15 @@ def z_and(conds):
 
 
 def ge(a, b):
-    """a >= b as bool / SymBool, inf-aware"""
+    """a >= b (up to 1e-9: the reference and the code may round one real expression differently) as
+    bool / SymBool, inf-aware"""
     if is_inf(a):
         return bool(a > 0) or (is_inf(b) and b < 0)
     if is_inf(b):
         return bool(b < 0)
-    return a >= b
+    if not isinstance(a, Sym) and not isinstance(b, Sym):
+        return bool(a >= b - EPS * max(1.0, abs(float(a)), abs(float(b))))
+    return a >= b - EPS
 
 
 def approx_eq(a, b):
